@@ -56,6 +56,7 @@ type natUplinkGeneric struct {
 	natConnSendCh  <-chan *natQueuedPacket
 	natConnPacker  zerocopy.ClientPacker
 	natTimeout     time.Duration
+	state          *atomic.Pointer[net.UDPConn]
 	logger         *zap.Logger
 }
 
@@ -379,6 +380,7 @@ func (s *UDPNATRelay) recvFromServerConnGeneric(ctx context.Context, lnc *udpRel
 						natConnSendCh:  natConnSendCh,
 						natConnPacker:  clientSession.Packer,
 						natTimeout:     lnc.natTimeout,
+						state:          &entry.state,
 						logger:         lnc.logger,
 					})
 					natConn.Close()
@@ -465,7 +467,7 @@ func (s *UDPNATRelay) relayServerConnToNatConnGeneric(ctx context.Context, uplin
 			)
 		}
 
-		err = uplink.natConn.SetReadDeadline(time.Now().Add(uplink.natTimeout))
+		err = extendNATConnReadDeadline(uplink.natConn, uplink.state, uplink.natTimeout)
 		if err != nil {
 			uplink.logger.Error("Failed to set read deadline on natConn",
 				zap.Stringer("clientAddress", uplink.clientAddrPort),
